@@ -151,6 +151,8 @@ func nontrivial(target string) bool {
 
 var hostH = []byte("h")
 
+var targetSuffixes = []string{"#f", "?q=1", "?q=1#f", "#f?x"}
+
 func checkOne(c *mc.Ctx, u *protocol.URI, target string) {
 	for _, host := range [][]byte{hostH, nil} {
 		if host == nil && (strings.HasPrefix(target, "//") || strings.Contains(target, "://")) {
@@ -162,6 +164,15 @@ func checkOne(c *mc.Ctx, u *protocol.URI, target string) {
 			c.Violate("path-invariant:"+msg, fmt.Sprintf("URI.Parse(%q,%q).Path()=%q %s", host, target, got, msg), Case{target})
 		} else if want := RefPath(target); got != want {
 			c.Violate("path-differs-from-segment-stack", fmt.Sprintf("URI.Parse(%q,%q).Path()=%q, reference (decode once, resolve with a stack)=%q", host, target, got, want), Case{target})
+		}
+	}
+	// the same path followed by a query and/or a fragment: what follows '?' or '#' is not part of the path and
+	// must not change how the path is decoded and resolved
+	want := RefPath(target)
+	for _, suf := range targetSuffixes {
+		u.Parse(hostH, []byte(target+suf))
+		if got := string(u.Path()); got != want {
+			c.Violate("path-differs-with-suffix:"+suf, fmt.Sprintf("URI.Parse(%q,%q).Path()=%q, reference (decode once, resolve with a stack)=%q", hostH, target+suf, got, want), Case{target + suf})
 		}
 	}
 	cp := utils.CleanPath(target)
@@ -249,6 +260,9 @@ func replay(c *mc.Ctx, raw json.RawMessage) {
 	var cs Case
 	if json.Unmarshal(raw, &cs) != nil {
 		return
+	}
+	for _, suf := range targetSuffixes {
+		cs.Target = strings.TrimSuffix(cs.Target, suf) // a suffix variant is re-checked through its base target
 	}
 	checkOne(c, &protocol.URI{}, cs.Target)
 }
